@@ -154,6 +154,7 @@ type src struct {
 	rem      int
 	term     error
 	closes   int
+	closeErr error // what Close returns (sources that can be closed only)
 	reads    int
 	maxReads int
 }
@@ -200,7 +201,7 @@ func (s *src) Read(p []byte) (int, error) {
 // srcC is a source that can be closed; it counts the Close calls it receives.
 type srcC struct{ *src }
 
-func (s srcC) Close() error { s.closes++; return nil }
+func (s srcC) Close() error { s.closes++; return s.closeErr }
 
 func newSrc(data []byte, evs []ev) *src {
 	return &src{data: data, evs: evs, maxReads: 4*(len(data)+len(evs)) + 16}
